@@ -9,15 +9,18 @@ SPEC = hdr_spec(
     props_file="C01",
     partial_note="for histories of submissions (any verdicts, automatic clean not due) both sentences are theorems: the tip has maximal accumulated work among all "
                  "branch tips (C01_tip_maximal_submissions) and the held best-chain headers are linked, Header(k).prev = Hash(k-1), across branch boundaries "
-                 "(C01_chain_linked_submissions). Not yet theorems: the same across Clean/Save/Load (checked by correspondence + monitor on every generated history), "
-                 "that every accepted header lies below some branch tip (by construction of the model), arrival-order independence (exercised).")
+                 "(C01_chain_linked_submissions); the recorded work is the cumulative block work from genesis, strictly increasing (C01_work_is_cumulative), and no "
+                 "header held by any tracked branch carries more work than the reported tip (C01_tip_dominates_submissions). Not yet theorems: the same across "
+                 "Clean/Save/Load/marking (checked by correspondence + monitor on every generated history), the third sentence for the internal branch-update error "
+                 "(monitor C01:error-left-heavier-unreported), arrival-order independence (exercised).")
 
 META = dict(
     technique="Lean 4 proof (specification of Longest(); maximal-tip and linked-forest invariants by induction over submission histories) + model/implementation correspondence + Spec-level monitor",
     text="Theorems: Longest() returns a listed branch of maximal last accumulated work; for EVERY finite history of submissions (any tree shape, duplicates, orphans, refusals, "
          "repeated overtakes) from a state with maximal tip the reported tip has maximal accumulated work among all branch tips; the branch forest stays well linked "
          "(parents before children, internal links, first header links to the parent's header at the fork height) so the best chain's held headers satisfy "
-         "Header(k).PrevBlock = Hash(k-1) down through forks of forks. The correspondence runs fork-heavy histories incl. sibling/cousin overtakes through the real code and the model; the monitor recomputes "
+         "Header(k).PrevBlock = Hash(k-1) down through forks of forks; accumulated work is exactly the sum of block works along the chain (each >= 1) and the reported tip "
+         "dominates every header any tracked branch holds. The correspondence runs fork-heavy histories incl. sibling/cousin overtakes through the real code and the model; the monitor recomputes "
          "cumulative work of every header from the definitions and checks tip maximality and linkage of Hash(0..tip) on every dump.",
     note=COMMON_NOTE + "Partial: see coverage.partial in the evidence. Concurrent peers are reduced to sequential histories by the extracted lock shapes (C01_lock_shapes).",
 )
